@@ -6,7 +6,8 @@ import os, re
 import vlib
 from comp.str import gen
 
-RULE = ("seeded op scripts over exact-size heap buffers (ASan redzone right after the last byte): all constructors, copy, "
+RULE = ("harness instantiated for char, char16_t, char32_t and wchar_t (all operations except to_number / compare(const char*) for the "
+        "wide types; alphabets with elements that agree in their low byte/half); seeded op scripts over exact-size heap buffers (ASan redzone right after the last byte): all constructors, copy, "
         "assignment, resize, +/+= (view, char), push_back, compare/== (string, C string), find_first/find_first_of/find_last, "
         "sub_string (incl. requests that wrap size_t), starts_with/ends_with, to_number<T> for 8 integer types, both hashes, "
         "strlen/strnlen, detach, swap; quick: corpus + sampled pairs of strings of length <= 4 over {0,'a','b','9'} + unary sweeps "
@@ -59,6 +60,12 @@ def cases_for(c, parts):
         cases += gen.exhaustive_unary(3 if quick else 4)
         for i in range(700 if quick else 6000):
             cases.append(("r%d" % i, gen.gen_case(c.rng, c.rng.choice([8, 20, 40, 80]))))
+        # the same operations instantiated for char16_t, char32_t, wchar_t (everything except to_number / compare(const char*))
+        for ct in ("2", "4", "w"):
+            cases += gen.wide_pairs(c.rng, 500, ct) if quick else gen.wide_pairs_exhaustive(ct, 3)
+            cases += gen.wide_unary(ct, 1 if quick else 2)
+            for i in range(150 if quick else 1500):
+                cases.append(("rw%s-%d" % (ct, i), gen.gen_case(c.rng, c.rng.choice([8, 20, 40]), ct)))
     if "all" in parts or "number" in parts:
         cases += [x for x in gen.corpus() if "d12" in x[0]] if "all" not in parts else []
         cases += gen.number_cases()
@@ -73,9 +80,12 @@ def run(c, parts=("all",)):
     cases = vlib.read_replay(c.replay) if c.replay else cases_for(c, parts)
     for _, ls in cases:
         c.count("str_cases")
+        c.count("str_chartype_" + (ls[0].split()[1] if ls and ls[0].startswith("char ") else "1"))
         c.count("str_ops", len(ls))
         for l in ls:
             k = l.split()[0]
+            if k == "char":
+                continue
             if k == "num":
                 c.count("str_num_" + l.split()[1])
             elif k != "buf":
